@@ -1014,6 +1014,8 @@ class PackageGen:
         for i in range(n):
             stream = r.chance(c.p_stream)
             t = self.gen_type(c.max_depth, (), allow_param=False)
+            if stream and c.no_bool_vectors and self.is_bool(t):
+                t = Prim("uint8")        # batches of a stream are std::vector<T> in C++
             steps.append((names[i], t, stream))
         self.add(Protocol(name, steps), r.randrange(8))
 
